@@ -146,7 +146,7 @@ def same_layout(a: Layout, b: Layout) -> bool:
 
 
 def show(L: Layout) -> str:
-    return "[" + " | ".join(",".join(sorted(o.describe() for o in m)) for m in L) + "]"
+    return "[" + " | ".join((",".join(sorted(o.describe() for o in m)) or "-") for m in L) + "]"
 
 
 def clamp_index(n: int, index: int) -> int:
@@ -386,28 +386,58 @@ def positions(N: Layout) -> Dict[str, List[int]]:
     return pos
 
 
-def align_existing(L: Layout, N: Layout, inserted: FrozenSet[str]) -> Optional[List[int]]:
-    """Map every moment of L to a moment of N, in order, such that N without the inserted
-    operations has exactly L's content there and every unmapped moment of N holds inserted
-    operations only.  None if the existing operations were rearranged."""
+def all_alignments(L: Layout, N: Layout, inserted: FrozenSet[str], cap: int = 64) -> List[List[int]]:
+    """Every way to map the moments of L to moments of N, in order, such that N without the
+    inserted operations has exactly L's content there and every unmapped moment of N holds
+    inserted operations only.  Non-empty moments map uniquely; an empty moment of L can be any
+    moment of N that holds no existing operation, so several alignments may exist and a
+    constraint is only broken if it is broken under all of them.  [] if the existing
+    operations were rearranged."""
     Nk = [sorted(o.uid for o in m if o.uid not in inserted) for m in N]
     Lk = [sorted(o.uid for o in m) for m in L]
-    out: List[int] = []
-    j = 0
-    for want in Lk:
-        while j < len(Nk) and Nk[j] != want:
-            if Nk[j]:
-                return None
-            j += 1
-        if j >= len(Nk):
-            return None
-        out.append(j)
-        j += 1
-    while j < len(Nk):
-        if Nk[j]:
-            return None
-        j += 1
+    out: List[List[int]] = []
+
+    def rec(i: int, j: int, acc: List[int]) -> None:
+        if len(out) >= cap:
+            return
+        if i == len(Lk):
+            if all(not Nk[x] for x in range(j, len(Nk))):
+                out.append(list(acc))
+            return
+        want = Lk[i]
+        x = j
+        while x < len(Nk):
+            if Nk[x] == want:
+                acc.append(x)
+                rec(i + 1, x + 1, acc)
+                acc.pop()
+                if want:
+                    return
+            if Nk[x]:
+                return
+            x += 1
+
+    rec(0, 0, [])
     return out
+
+
+def align_existing(L: Layout, N: Layout, inserted: FrozenSet[str]) -> Optional[List[int]]:
+    al = all_alignments(L, N, inserted, cap=1)
+    return al[0] if al else None
+
+
+def _first_clean(L: Layout, N: Layout, inserted: FrozenSet[str], check) -> List["Problem"]:
+    als = all_alignments(L, N, inserted)
+    if not als:
+        return [("C05-ORDER", f"existing operations were rearranged: {show(L)} -> {show(N)}")]
+    first: Optional[List["Problem"]] = None
+    for al in als:
+        probs = check(al)
+        if not probs:
+            return []
+        if first is None:
+            first = probs
+    return first or []
 
 
 def conservation(before: Sequence[str], after: Sequence[str], added: Sequence[str] = (),
@@ -443,14 +473,18 @@ def check_insert_multi(L: Layout, N: Layout, index: int, items: Sequence, strate
     inserted in argument order, inserted < existing-after-point except for the statement's
     exemption: several operations inserted mid-circuit with EARLIEST).
     """
+    ins_ops = flatten_items(items)
+    inserted = frozenset(o.uid for o in ins_ops)
+    return _first_clean(L, N, inserted,
+                        lambda al: _insert_multi_aligned(L, N, index, items, strategy, returned, key_strict, al))
+
+
+def _insert_multi_aligned(L: Layout, N: Layout, index: int, items: Sequence, strategy: str,
+                          returned: Optional[int], key_strict: bool, al: List[int]) -> List[Problem]:
     out: List[Problem] = []
     n = len(L)
     k = clamp_index(n, index)
     ins_ops = flatten_items(items)
-    inserted = frozenset(o.uid for o in ins_ops)
-    al = align_existing(L, N, inserted)
-    if al is None:
-        return [("C05-ORDER", f"existing operations were rearranged by an insert: {show(L)} -> {show(N)}")]
     pos = positions(N)
     aligned = set(al)
 
@@ -461,6 +495,11 @@ def check_insert_multi(L: Layout, N: Layout, index: int, items: Sequence, strate
     before_idx = al[k - 1] if k > 0 else -1
     after_idx = al[k] if k < n else len(N)
 
+    # the statement's exemption: several operations inserted mid-circuit with EARLIEST may share
+    # the moment at the insertion point (and thereby push the later ones further); read in the
+    # weakest way, the "before everything after the insertion point" clause is not asserted then
+    several = len(items) > 1
+    exempt_after = strategy == EARLIEST and several and k < n
     n_moment_items = 0
     for it in items:
         if isinstance(it, MMoment):
@@ -471,7 +510,7 @@ def check_insert_multi(L: Layout, N: Layout, index: int, items: Sequence, strate
                     out.append(("C05-PLACE", f"inserted Moment {list(it)} was split over moments {js}"))
                 elif js[0] in aligned:
                     out.append(("C05-PLACE", f"inserted Moment {list(it)} was merged into existing moment {js[0]}"))
-                elif not (before_idx < js[0] < after_idx) and strategy != LATEST:
+                elif not (before_idx < js[0] < after_idx) and strategy != LATEST and not exempt_after:
                     out.append(("C05-PLACE", f"inserted Moment {list(it)} is at {js[0]}, outside the "
                                              f"insertion point ({before_idx},{after_idx})"))
         elif strategy == NEW:
@@ -484,8 +523,6 @@ def check_insert_multi(L: Layout, N: Layout, index: int, items: Sequence, strate
     if len(N) - n < n_moment_items:
         out.append(("C05-PLACE", f"{n_moment_items} Moments inserted but the circuit grew by {len(N) - n}"))
 
-    several = len(items) > 1
-    exempt_after = strategy == EARLIEST and several and k < n
     for x in ins_ops:
         jx = where(x)
         if strategy in (LATEST, NEW_THEN_INLINE, NEW) and jx <= before_idx:
@@ -544,11 +581,13 @@ def check_insert_multi(L: Layout, N: Layout, index: int, items: Sequence, strate
 
 def check_insert_into_range(L: Layout, N: Layout, ops: Sequence[AOp], start: int, end: int,
                             returned: Optional[int]) -> List[Problem]:
-    out: List[Problem] = []
     inserted = frozenset(o.uid for o in ops)
-    al = align_existing(L, N, inserted)
-    if al is None:
-        return [("C05-ORDER", f"existing operations were rearranged: {show(L)} -> {show(N)}")]
+    return _first_clean(L, N, inserted, lambda al: _into_range_aligned(L, N, ops, start, end, returned, al))
+
+
+def _into_range_aligned(L: Layout, N: Layout, ops: Sequence[AOp], start: int, end: int,
+                        returned: Optional[int], al: List[int]) -> List[Problem]:
+    out: List[Problem] = []
     pos = positions(N)
     for i in range(end):
         if al[i] != i:
@@ -588,11 +627,12 @@ def check_insert_into_range(L: Layout, N: Layout, ops: Sequence[AOp], start: int
 
 
 def check_insert_at_frontier(L: Layout, N: Layout, ops: Sequence[AOp], start: int) -> List[Problem]:
-    out: List[Problem] = []
     inserted = frozenset(o.uid for o in ops)
-    al = align_existing(L, N, inserted)
-    if al is None:
-        return [("C05-ORDER", f"existing operations were rearranged: {show(L)} -> {show(N)}")]
+    return _first_clean(L, N, inserted, lambda al: _at_frontier_aligned(L, N, ops, start, al))
+
+
+def _at_frontier_aligned(L: Layout, N: Layout, ops: Sequence[AOp], start: int, al: List[int]) -> List[Problem]:
+    out: List[Problem] = []
     pos = positions(N)
     for x in ops:
         jx = pos[x.uid][0]
@@ -663,12 +703,13 @@ def check_concat_ragged(A: Layout, B: Layout, N: Layout) -> List[Problem]:
 def check_batch_insert_loose(L: Layout, N: Layout, insertions: Sequence[Tuple[int, Sequence]]) -> List[Problem]:
     """batch_insert with several operations per entry or repeated indices: only frame,
     intact Moments and argument order inside one entry, and 'after what was before'."""
-    out: List[Problem] = []
     all_ops = [o for _, items in insertions for o in flatten_items(items)]
     inserted = frozenset(o.uid for o in all_ops)
-    al = align_existing(L, N, inserted)
-    if al is None:
-        return [("C05-ORDER", f"existing operations were rearranged: {show(L)} -> {show(N)}")]
+    return _first_clean(L, N, inserted, lambda al: _batch_loose_aligned(L, N, insertions, al))
+
+
+def _batch_loose_aligned(L: Layout, N: Layout, insertions: Sequence[Tuple[int, Sequence]], al: List[int]) -> List[Problem]:
+    out: List[Problem] = []
     pos = positions(N)
     n = len(L)
     for i0, items in insertions:
